@@ -1,5 +1,5 @@
 """C10 — Numeric comparison is the mathematical order (structural part)."""
-from . import mir, registry, interval
+from . import mir, registry, interval, absint
 from .interval import IV, En, TOP, Interp
 from .mir import callee, callee_matches, Prov
 from .ctx import where_of
@@ -255,18 +255,27 @@ def run(ctx):
         if f is None:
             ctx.report("C10-eqv", nm, "%s not registered" % nm)
             continue
-        # (Number, Number) arm calls exact_eqv
-        uses = [(b, t) for b, t in f.calls() if callee(t) == ee.name]
-        ctx.inst("C10-eqv", nm, {"target": f.name.rsplit("::", 1)[-1], "exact_eqv_calls": len(uses)})
-        if len(uses) != 1:
-            ctx.report("C10-eqv", nm + "/numbers", "%s does not compare numbers with exact_eqv" % nm, where_of(f))
-        else:
-            p = Prov(f)
-            b, t = uses[0]
-            r0, p0 = mir.trace_access(f, t["args"][0])
-            r1, p1 = mir.trace_access(f, t["args"][1])
-            if "Number" not in p0 or "Number" not in p1 or r0 == r1:
-                ctx.report("C10-eqv", nm + "/operands", "exact_eqv is not applied to the two Number payloads", where_of(f, t))
+        # the registered procedure on pairs of sample numbers of every kind (the answer table); the shape of its (Number, Number) arm
+        # only as a fallback when the table decides nothing
+        from . import evaltables as _et10
+        try:
+            n_rows = _et10.rule_eqv_numbers(ctx, "C10-eqv", nm, f)
+        except (mir.AnchorMissing, absint.Stuck, absint.Loop) as e:
+            ctx.undecided("C10-eqv", nm + "/table", "the answer table of %s could not be built: %s" % (nm, e), where_of(f))
+            n_rows = 0
+
+        def _arm_shape(f=f, nm=nm):
+            uses = [(b, t) for b, t in f.calls() if callee(t) == ee.name]
+            ctx.inst("C10-eqv", nm, {"target": f.name.rsplit("::", 1)[-1], "exact_eqv_calls": len(uses)})
+            if len(uses) != 1:
+                ctx.report("C10-eqv", nm + "/numbers", "%s does not compare numbers with exact_eqv" % nm, where_of(f))
+            else:
+                b, t = uses[0]
+                r0, p0 = mir.trace_access(f, t["args"][0])
+                r1, p1 = mir.trace_access(f, t["args"][1])
+                if "Number" not in p0 or "Number" not in p1 or r0 == r1:
+                    ctx.report("C10-eqv", nm + "/operands", "exact_eqv is not applied to the two Number payloads", where_of(f, t))
+        ctx.guarded("C10-eqv", n_rows >= 40, _arm_shape)
 
     # preconditions of the cross multiplication (shared with C09): overflow-freedom below 2^15 and positive denominators
     ctx.rule("C10-cmp-range", "the products of the ratio comparison cannot overflow below 2^15 (interval proof); beyond: census")
